@@ -174,6 +174,21 @@ def _mutate(ctx, ind, tag):
     ind.custom = dict(ind.custom, value=ctx.real('%s_cust' % tag))
 
 
+def _mutate_in_place(ctx, ind, tag):
+    """Same kind of update, but every container is modified IN PLACE (no attribute is re-bound): what a swarm position
+    update, a user's evaluate() adding custom data, or an archive writing a feature do.  A store that remembers the
+    last written record by reference sees 'no change'."""
+    ind.costs[0] = ctx.real('%s_c0' % tag)
+    ind.costs_signed[0] = ctx.real('%s_s0' % tag)
+    ind.vector[0] = ctx.real('%s_x0' % tag)
+    if isinstance(ind.features.get('velocity'), list):
+        ind.features['velocity'][0] = ctx.real('%s_v0' % tag)
+    ind.custom['value'] = ctx.real('%s_cust' % tag)
+    if isinstance(ind.custom.get('nested'), dict):
+        ind.custom['nested']['list'][0] = ctx.real('%s_n0' % tag)
+    ind.custom['added-%s' % tag] = [1, 'later']
+
+
 def history(args):
     ops_list = args['ops']          # e.g. ['sync0', 'mut0', 'sync0', 'sync1', 'all']
     ninds = args['ninds']
@@ -220,6 +235,9 @@ def history(args):
                     ind = inds[int(op[4:])]
                     store.sync_individual(ind)
                     last[ind.id] = _snapshot(ind)
+                elif op.startswith('imut'):
+                    nmut += 1
+                    _mutate_in_place(ctx, inds[int(op[4:])], 'm%d' % nmut)
                 elif op.startswith('mut'):
                     nmut += 1
                     saved[int(op[3:])] = _save(inds[int(op[3:])])
@@ -341,6 +359,8 @@ def configs(tier):
         ('s0-s1-m0-all', ['sync0', 'sync1', 'mut0', 'all'], 2, False),
         ('same-id-last-wins', ['sync0', 'sync1'], 2, True),
         ('all-m1-s1', ['all', 'mut1', 'sync1'], 2, False),
+        ('s-im-s', ['sync0', 'imut0', 'sync0'], 1, False),
+        ('s0-s1-im1-all', ['sync0', 'sync1', 'imut1', 'all'], 2, False),
         ('s0-s1-m1-all', ['sync0', 'sync1', 'mut1', 'all'], 2, False),
         # a row rewritten individually between two bulk syncs, data reverted in between (stale-cache pattern)
         ('all-m0-s0-rev0-all', ['all', 'mut0', 'sync0', 'rev0', 'all'], 1, False),
